@@ -18,20 +18,21 @@ import (
 
 // harnessDef describes one harness run of a property check.
 type harnessDef struct {
-	Name     string         // pkgkey.Func
-	Tags     string         // build tags (default "verif")
-	Quick    map[string]int // params for the quick tier
-	Thorough map[string]int // params for the thorough tier (nil: same as quick)
-	Optional []string       // labels that need not be reached
-	Must     []string       // when set: exactly these labels must be reached (others optional)
-	Cfg      func(c *sym.Config)
-	MaxPaths int
-	NoReplay bool // violations cannot be replayed natively (reported as inconclusive)
-	Witness  int
-	OnlyTier string
-	Repeat   int    // native replays of a schedule-dependent counterexample (with jitter) before giving up
-	Race     bool   // happens-before race analysis in the engine; native replays are built with -race
-	DualTags string // second program (translation validation): run the harness in both, compare emits
+	Name        string         // pkgkey.Func
+	Tags        string         // build tags (default "verif")
+	Quick       map[string]int // params for the quick tier
+	Thorough    map[string]int // params for the thorough tier (nil: same as quick)
+	Optional    []string       // labels that need not be reached
+	Must        []string       // when set: exactly these labels must be reached (others optional)
+	Cfg         func(c *sym.Config)
+	MaxPaths    int
+	NoReplay    bool // violations cannot be replayed natively (reported as inconclusive)
+	Witness     int
+	OnlyTier    string
+	Repeat      int    // native replays of a schedule-dependent counterexample (with jitter) before giving up
+	NoEarlyStop bool   // explore everything even when many paths violate (small harnesses over opaque models, where only some violating members reproduce natively)
+	Race        bool   // happens-before race analysis in the engine; native replays are built with -race
+	DualTags    string // second program (translation validation): run the harness in both, compare emits
 }
 
 type propDef struct {
@@ -88,7 +89,7 @@ type checkRun struct {
 	tmp      string
 	testBins map[string]string
 	known    knownFile
-	race bool // native binaries of the current harness are built with -race
+	race     bool // native binaries of the current harness are built with -race
 }
 
 func (cr *checkRun) world(tags string) (*sym.World, error) {
@@ -281,6 +282,55 @@ func reproduced(v *sym.Outcome, nr *nativeResult) bool {
 	return strings.HasPrefix(nr.panicMsg, "VERIF-ASSERT ")
 }
 
+// diverseOrder reorders the violations so that, within each group (same key), members come in an
+// order that maximises the number of choices in which each differs from those before it.
+func diverseOrder(vs []*sym.Outcome, key func(*sym.Outcome) string) []*sym.Outcome {
+	groups := map[string][]*sym.Outcome{}
+	var order []string
+	for _, v := range vs {
+		k := key(v)
+		if _, ok := groups[k]; !ok {
+			order = append(order, k)
+		}
+		groups[k] = append(groups[k], v)
+	}
+	dist := func(a, b *sym.Outcome) int {
+		x, y := strings.Fields(a.Choices), strings.Fields(b.Choices)
+		d := 0
+		for i := 0; i < len(x) || i < len(y); i++ {
+			if i >= len(x) || i >= len(y) || x[i] != y[i] {
+				d++
+			}
+		}
+		return d
+	}
+	var out []*sym.Outcome
+	for _, k := range order {
+		g := groups[k]
+		picked := []*sym.Outcome{g[0]}
+		rest := append([]*sym.Outcome(nil), g[1:]...)
+		for len(rest) > 0 && len(picked) < 8 {
+			best, bestD := 0, -1
+			for i, c := range rest {
+				d := 1 << 30
+				for _, p := range picked {
+					if x := dist(c, p); x < d {
+						d = x
+					}
+				}
+				if d > bestD {
+					best, bestD = i, d
+				}
+			}
+			picked = append(picked, rest[best])
+			rest = append(rest[:best], rest[best+1:]...)
+		}
+		out = append(out, picked...)
+		out = append(out, rest...)
+	}
+	return out
+}
+
 // raceInLibrary: the Go race detector reported a race in which at least one of the two accesses
 // was made by code that is not the harness' own (the top frame of the access is not a zz_verif file).
 func raceInLibrary(out string) bool {
@@ -430,7 +480,7 @@ func runCheck(pd *propDef, tier string, seed int, verifDir, only string, workers
 			hd.Cfg(&spec.Cfg)
 		}
 		spec.Cfg.Race = hd.Race
-		if !cr.hasKnownFindings(pd.ID) {
+		if !cr.hasKnownFindings(pd.ID) && !hd.NoEarlyStop {
 			spec.StopAfterViolations = 500
 		}
 		cr.race = hd.Race
@@ -554,19 +604,23 @@ func runCheck(pd *propDef, tier string, seed int, verifDir, only string, workers
 		tries := map[string]int{}
 		pendingInconclusive := map[string]string{}
 		reported, attempts := 0, 0
-		for _, v := range rep.Violations {
-			key := v.Label + "|" + v.Site + "|" + firstLine(v.Msg)
+		vkey := func(v *sym.Outcome) string {
 			if v.Label == "does-not-return" || v.Label == "deadlock" {
-				key = v.Label
+				return v.Label
 			}
+			return v.Label + "|" + v.Site + "|" + firstLine(v.Msg)
+		}
+		for _, v := range diverseOrder(rep.Violations, vkey) {
+			key := vkey(v)
 			// several paths may violate the same assertion; a member of the group whose model
 			// does not reproduce (e.g. because an abstracted codec happens to agree natively for
-			// that value) must not hide the others: try up to 4 members per group
-			if seen[key] || tries[key] >= 4 {
+			// that value) must not hide the others: try up to 6 members per group, chosen to differ
+			// from each other in as many choices as possible
+			if seen[key] || tries[key] >= 6 {
 				continue
 			}
 			tries[key]++
-			if reported >= 3 || attempts >= 16 {
+			if reported >= 3 || attempts >= 24 {
 				// enough to fail the check; the evidence lists the rest
 				continue
 			}
